@@ -1,6 +1,6 @@
 """Per-property specifications: generators, projections, shrinkers, evidence texts."""
 import os
-from . import build, gen_codec
+from . import build, gen_codec, gen_rope
 from .common import Case
 
 class Spec:
@@ -127,7 +127,36 @@ C12 = Spec('C12',
     assumptions=['generated lines fit u32 (fewer than 2^32 ";")', 'decoder clause: every running value < 2^32'],
 )
 
-REGISTRY = {'C12': C12}
+# ---------------- C16 ----------------
+def gen_c16(rng, tier):
+    n = 3000 if tier == 'quick' else 150000
+    out = [gen_rope.gen_case(rng) for _ in range(n)]
+    if tier == 'thorough':
+        # exhaustive small scope: all programs of <= 2 operations over 4 pieces
+        pcs = ['', 'a', '\n', 'é']
+        base = [('new',)] + [('from', x) for x in pcs] + [('iter', [x, y]) for x in pcs for y in pcs]
+        lvl1 = list(base)
+        for b in base:
+            for x in pcs:
+                lvl1.append(('add', b, x))
+            for b2 in base[:5]:
+                lvl1.append(('app', b, b2))
+        for p in lvl1:
+            for q in base[:9]:
+                out.append(Case('rope', {'p': p, 'q': q}, {'nontrivial', 'exhaustive_scope'}))
+    return out
+
+C16 = Spec('C16',
+    kinds={'rope': {'ser': gen_rope.ser_rope, 'proj': None, 'shrink': gen_rope.shrink_rope}},
+    gen=gen_c16,
+    rule='random rope construction programs (new/from/from_iter/add/append/byte_slice/line, depth <= 4) over pieces "", a, b\\n, e-acute, \\n, ab, euro x, emoji, c\\nd, ...; second rope denotes an equal / prefix / one-char-different string in another piece division (70%) or is independent; all slice ranges 0..len+1 squared observed per case; non-trivial = at least one operation and flat length >= 2',
+    explanation='theorems of Props/C16.v are about the piece-table model Rope/RopeModel.v; correspondence compares every observer answer of the model with the Rust Rope on the same construction program; the extracted checker chk_C16 judges the implementation against plain string functions',
+    checker_name='ChkRope.chk_C16_unary / chk_C16_binary (via ApiRope.api_rope_check)',
+    model_name='Rope/RopeModel.v',
+    assumptions=['slice::binary_search_by is modelled by its contract on strictly increasing keys'],
+)
+
+REGISTRY = {'C12': C12, 'C16': C16}
 
 def get(pid):
     return REGISTRY[pid]
